@@ -66,7 +66,8 @@ class MenuEnv(fm94.Env):
 
 class ShapeRef(fm94.Reference):
     def _element(self, d, **kw):
-        self.env.structural = ((d // 1000) % 100 == 31)
+        # replication factors and bitmap bits shape the message; every other class-31 element is content
+        self.env.structural = d in (31000, 31001, 31002, 31031)
         try:
             return fm94.Reference._element(self, d, **kw)
         finally:
